@@ -275,10 +275,27 @@ def run(ctx, res):
                 lens |= {len(v) for v in consts[i]}
         return lens or None
 
+    # names of the source text and of the running byte offset, from the signature (first `&str` / first `usize`
+    # parameter) and the locals re-bound from them (`let mut offset = offset;`, `let s = &s[offset..];`)
+    text_names = {p_["name"] for p_ in lb["params"] if "str" in p_["ty"]}
+    off_names = set([p_["name"] for p_ in lb["params"] if p_["ty"].strip() == "usize"][:1])
+    for _ in range(3):
+        for n in S.walk(lb["body"]):
+            if n["k"] == "Let" and n.get("init") is not None and n["pat"]["k"] == "PIdent":
+                i_ = n["init"]
+                while i_["k"] in ("Ref", "Paren"):
+                    i_ = i_["e"]
+                if i_["k"] == "Path" and i_["path"] in off_names:
+                    off_names.add(n["pat"]["name"])
+                if i_["k"] == "Index" and i_["e"].get("path") in text_names:
+                    text_names.add(n["pat"]["name"])
+    if not text_names or not off_names:
+        raise M.MissingAnchor("lex_between: cannot identify the source text / offset parameters")
+
     def visit(node, path):
         nonlocal n_adv
         if isinstance(node, dict):
-            if node.get("k") == "Binary" and node["op"] == "+=" and node["l"].get("path") == "offset":
+            if node.get("k") == "Binary" and node["op"] == "+=" and node["l"].get("path") in off_names:
                 n_adv += 1
                 ok_l = ascii_guard_lengths(path)
                 key = "parser::lex::lex_between # offset += %s" % ctx.src_text(LEX, node["r"]["sp"])
@@ -289,7 +306,7 @@ def run(ctx, res):
                             "the lexer advances its byte offset by `%s`, which is not a character-boundary quantity here "
                             "(the next `&s[offset..]` can land inside a multi-byte character and panic)" % ctx.src_text(LEX, node["r"]["sp"]),
                             "%s:%d" % (LEX, S.line(node)))
-            if node.get("k") == "Index" and node["i"]["k"] == "Range" and node["e"].get("path") == "s":
+            if node.get("k") == "Index" and node["i"]["k"] == "Range" and node["e"].get("path") in text_names:
                 ok_l = ascii_guard_lengths(path) | {0}
                 for bnd in ("lo", "hi"):
                     b = node["i"][bnd]
@@ -297,7 +314,7 @@ def run(ctx, res):
                         continue
                     n_adv += 1
                     key = "parser::lex::lex_between # &s[..] bound %s" % ctx.src_text(LEX, b["sp"])
-                    if boundary_expr(b, ok_l) or b.get("path") == "offset":
+                    if boundary_expr(b, ok_l) or b.get("path") in off_names:
                         res.ok("CHAR-BOUNDARY", key)
                     else:
                         res.bad("CHAR-BOUNDARY", key, "slice bound `%s` of the source text is not a character-boundary quantity here" % ctx.src_text(LEX, b["sp"]),
